@@ -171,6 +171,7 @@ type emitter struct {
 	funcs   map[string]bool // leaves available for calls
 	listed  map[string]bool
 	inprog  map[string]bool
+	structVars map[string]bool
 	sum     *summary
 }
 
@@ -285,6 +286,10 @@ func (e *emitter) tableDef(name string) {
 						ty = "list (list Z)"
 					} else if kind == "pairs" {
 						ty = "list (list Z * Z)"
+					} else if strings.HasPrefix(kind, "tuple") {
+						n := 0
+						fmt.Sscanf(kind, "tuple%d", &n)
+						ty = "list (" + strings.TrimSuffix(strings.Repeat("Z * ", n), " * ") + ")"
 					}
 					fmt.Fprintf(e.buf, "Definition %s : %s := [%s].\n", coqName(e.prefix, name), ty, strings.Join(elems, "; "))
 					e.sum.Tables++
@@ -338,6 +343,32 @@ func (e *emitter) tableElems(x ast.Expr) ([]string, string, bool) {
 				continue
 			}
 			return nil, "", false
+		}
+		if scl, ok := el.(*ast.CompositeLit); ok {
+			// struct literal with constant fields -> tuple, in the order written (all elements must
+			// use the same field order; keyed fields are checked against the struct's declaration order)
+			var fields []string
+			st, _ := e.p.info.Types[scl].Type.Underlying().(*types.Struct)
+			for i, f := range scl.Elts {
+				v := f
+				if kv, ok := f.(*ast.KeyValueExpr); ok {
+					v = kv.Value
+					if id, ok := kv.Key.(*ast.Ident); !ok || st == nil || i >= st.NumFields() || st.Field(i).Name() != id.Name {
+						return nil, "", false
+					}
+				}
+				ftv, ok := e.p.info.Types[v]
+				if !ok || ftv.Value == nil || ftv.Value.Kind() != constant.Int {
+					return nil, "", false
+				}
+				fields = append(fields, zlit(ftv.Value))
+			}
+			if st == nil || len(fields) != st.NumFields() || len(fields) < 2 {
+				return nil, "", false
+			}
+			kind = fmt.Sprintf("tuple%d", len(fields))
+			out = append(out, "("+strings.Join(fields, ", ")+")")
+			continue
 		}
 		tv, ok := e.p.info.Types[el]
 		if !ok || tv.Value == nil {
@@ -620,6 +651,11 @@ func (e *emitter) expr(x ast.Expr) string {
 			bad("call to %s (not a translated leaf)", id.Name)
 		}
 		bad("call expression outside the subset")
+	case *ast.SelectorExpr:
+		if id, ok := v.X.(*ast.Ident); ok && e.structVars[id.Name] {
+			return "v_" + id.Name + "_" + v.Sel.Name
+		}
+		bad("selector expression %s outside the subset", v.Sel.Name)
 	case *ast.IndexExpr:
 		return "(nthZ " + e.expr(v.X) + " " + e.expr(v.Index) + ")"
 	}
@@ -828,12 +864,36 @@ func (e *emitter) funcDef(name string) {
 	}
 	sig := obj.Type().(*types.Signature)
 	var params []string
+	addParam := func(n string, t types.Type) {
+		if st, ok := t.Underlying().(*types.Struct); ok {
+			// a struct is flattened into one parameter per field the body actually reads
+			// (v_<name>_<Field>); an unread field of any type is simply not a parameter
+			used := map[string]bool{}
+			ast.Inspect(fd.Body, func(nd ast.Node) bool {
+				if se, ok := nd.(*ast.SelectorExpr); ok {
+					if id, ok := se.X.(*ast.Ident); ok && id.Name == n {
+						used[se.Sel.Name] = true
+					}
+				}
+				return true
+			})
+			for i := 0; i < st.NumFields(); i++ {
+				if used[st.Field(i).Name()] {
+					params = append(params, "(v_"+n+"_"+st.Field(i).Name()+" : "+e.coqType(st.Field(i).Type())+")")
+				}
+			}
+			e.structVars[n] = true
+			return
+		}
+		params = append(params, "(v_"+n+" : "+e.coqType(t)+")")
+	}
+	e.structVars = map[string]bool{}
 	if fd.Recv != nil && len(fd.Recv.List) == 1 && len(fd.Recv.List[0].Names) == 1 && sig.Recv() != nil {
 		rt := sig.Recv().Type()
 		if p, ok := rt.(*types.Pointer); ok {
 			rt = p.Elem()
 		}
-		params = append(params, "(v_"+fd.Recv.List[0].Names[0].Name+" : "+e.coqType(rt)+")")
+		addParam(fd.Recv.List[0].Names[0].Name, rt)
 	}
 	for i := 0; i < sig.Params().Len(); i++ {
 		p := sig.Params().At(i)
@@ -841,7 +901,7 @@ func (e *emitter) funcDef(name string) {
 		if n == "" || n == "_" {
 			n = fmt.Sprintf("unused%d", i)
 		}
-		params = append(params, "(v_"+n+" : "+e.coqType(p.Type())+")")
+		addParam(n, p.Type())
 	}
 	var rts []string
 	for i := 0; i < sig.Results().Len(); i++ {
